@@ -30,7 +30,7 @@ BOUNDSCHECK_TIERS = ("thorough",)
 def REQUIRED(tier):
     return [f"op:{o}" for o in OPS] + ["regime:subrange_before_eof", "regime:>=3blocks", "regime:gulp<2*maxdelay", "regime:gulp>nsamps",
                                        "regime:last_block_shorter_than_maxdelay", "regime:maxdelay>nsamps/2", "tiling_checks", "gulp_independence_checks",
-                                       "spy:extract_tim", "spy:dedisperse"]
+                                       "spy:extract_tim", "spy:dedisperse", "regime:reader_with_history"]
 
 
 def _cfg(nbits, N=97, nch=8, split=None, tsamp=1e-3):
@@ -161,6 +161,20 @@ def run_case(case, ctx):
             if nblocks >= 2 and 0 < (nsamps - maxdelay) % (ge - maxdelay) < maxdelay:
                 ctx.count("regime:last_block_shorter_than_maxdelay")
         tag = f"{op}[{'subrange' if regime else 'to-eof' if start else 'whole'}]"
+        # reader with a history: an earlier reduction over ANOTHER range of the same length (or an abandoned plan) on this reader object
+        hrng = np.random.default_rng([case["dseed"], gulp, start, nsamps, 66])
+        if hrng.random() < 0.35:
+            other = [b for b in (0, cfg["N"] - nsamps, (cfg["N"] - nsamps) // 2) if b != start and 0 <= b <= cfg["N"] - nsamps]
+            b = int(other[0]) if other else start
+            kind = int(hrng.integers(0, 3))
+            with np.errstate(all="ignore"):
+                if kind == 0:
+                    (fil.compute_stats if hrng.random() < 0.5 else fil.compute_stats_basic)(gulp=int(hrng.integers(1, cfg["N"] + 1)), start=b, nsamps=nsamps, quiet=True, description="v")
+                elif kind == 1:
+                    next(fil.read_plan(gulp=max(1, nsamps // 2), start=b, nsamps=nsamps, quiet=True, description="v"))
+                else:
+                    fil.bandpass(gulp=int(hrng.integers(1, cfg["N"] + 1)), start=b, nsamps=nsamps, quiet=True, description="v")
+            ctx.count("regime:reader_with_history")
         _spy.clear()
         try:
             res = _call(fil, op, gulp, start, nsamps, dm, ichan)
